@@ -6,7 +6,7 @@
    `refines0 deg t L` : the model tree t of degree deg stands for the sorted map L (C03_Hist.v);
    `refines`         : ... and L has fewer than 2^31 items (the model's recursion fuel is then sufficient). *)
 From Coq Require Import ZArith List Lia Bool Sorting.Sorted.
-Require Import C03_Model C03_Spec C03_D C03_Ins C03_Sel C03_Inv C03_Tot C03_InsInv C03_Up C03_Tree C03_Scan C03_ScanSpec C03_Hist C03_Steps C03_Refine C03_History C03_Cow C03_Monitor C03_Heap C03_HeapLib C03_HeapIns C03_HeapRem C03_HeapTree C03_HeapWorld C03_HeapEx C03_Check.
+Require Import C03_Model C03_Spec C03_D C03_Ins C03_Sel C03_Inv C03_Tot C03_InsInv C03_Up C03_Tree C03_Scan C03_ScanSpec C03_Hist C03_Steps C03_Refine C03_History C03_Cow C03_Monitor C03_Heap C03_HeapLib C03_HeapIns C03_HeapRem C03_HeapTree C03_HeapClear C03_HeapWorld C03_HeapEx C03_Check.
 Import ListNotations.
 Open Scope Z_scope.
 
@@ -207,12 +207,26 @@ Theorem c03_heap_delete_abstraction : forall deg, (2 <= deg)%nat -> forall s hd 
     step_ok (hctx hd) (hfp (hp s) hd) (hp s) (hp s') (hfp (hp s') hd').
 Proof. exact h_delete_sim. Qed.
 
-(* one operation (Clone, ReplaceOrInsert, Delete, DeleteMin, DeleteMax) on a family of handles: it returns what the functional family
+(* Clear(true|false) through a handle: the store changes only by the removal of nodes of the handle's tree that the
+   handle's context owns (step_ok ... []: everything else keeps its content); the handle then stands for the empty tree *)
+Theorem c03_heap_clear : forall s hd b, good_alloc s ->
+  good_alloc (fst (h_clear s hd b)) /\ habs (hp (fst (h_clear s hd b))) (snd (h_clear s hd b)) = Some iempty /\
+  hctx (snd (h_clear s hd b)) = hctx hd /\
+  step_ok (hctx hd) (hfp (hp s) hd) (hp s) (hp (fst (h_clear s hd b))) (hfp (hp (fst (h_clear s hd b))) (snd (h_clear s hd b))).
+Proof. exact h_clear_sim. Qed.
+(* node.reset releases only nodes of the subtree that the given context owns, whatever the fuel and the store *)
+Theorem c03_heap_reset_owned_only : forall c f s a, good_alloc s ->
+  good_alloc (fst (h_reset f c s a)) /\
+  forall x, hp (fst (h_reset f c s a)) x = hp s x \/
+            (hp (fst (h_reset f c s a)) x = None /\ In x (addrs f (hp s) a) /\ exists n, hp s x = Some n /\ own n = c).
+Proof. intros c f s a Hg. apply (h_reset_spec c (hp s) f s a Hg). intros x n H. exact H. Qed.
+(* one operation (Clone, ReplaceOrInsert, Delete, DeleteMin, DeleteMax, Clear, NewWithFreeList on the shared free list)
+   on a family of handles: it returns what the functional family
    returns, the invariant is kept, and every handle other than the one operated on keeps its value *)
 Theorem c03_heap_step : forall deg, (2 <= deg)%nat -> forall w ts o ts' out, winv deg w ts ->
   f_step deg ts o = Some (ts', out) -> (forall t', In t' ts' -> small_t t') ->
   exists w', w_step_h deg w o = Some (w', out) /\ winv deg w' ts' /\
-    (forall j hj, j <> target o -> nth_error (whs w) j = Some hj ->
+    (forall j hj, target o <> Some j -> nth_error (whs w) j = Some hj ->
        nth_error (whs w') j = Some hj /\ habs (hp (wst w')) hj = habs (hp (wst w)) hj).
 Proof. exact w_step_sim. Qed.
 (* every history, from any family satisfying the invariant, and from the empty tree *)
@@ -226,18 +240,23 @@ Theorem c03_heap_history_from_empty : forall deg, (2 <= deg)%nat -> forall ops t
 Proof. exact h_history_from_empty. Qed.
 Theorem c03_heap_invariant_initial : forall deg, winv deg world0 [iempty].
 Proof. exact winv0. Qed.
+(* the same for a free list of any size (NewFreeList(k)), e.g. one that is full most of the time *)
+Theorem c03_heap_history_any_free_list : forall deg k, (2 <= deg)%nat -> forall ops ts' outs,
+  f_run deg [iempty] ops = Some (ts', outs) -> f_small deg [iempty] ops ->
+  exists w', h_run deg (world_init k) ops = Some (w', outs) /\ winv deg w' ts'.
+Proof. exact h_history_from_init. Qed.
 (* what the invariant gives: each handle stands for its functional tree, which stands for a sorted map *)
 Theorem c03_heap_abstraction : forall deg w ts i hd, winv deg w ts -> nth_error (whs w) i = Some hd ->
   exists t L, nth_error ts i = Some t /\ habs (hp (wst w)) hd = Some t /\ refines deg t L.
 Proof. exact winv_abs. Qed.
 
-(* clone isolation at full strength: in every family reachable by Clone / ReplaceOrInsert / Delete / DeleteMin /
-   DeleteMax (c03_heap_history), an operation through one handle leaves every other handle, and the functional tree
+(* clone isolation at full strength, also across Clear: in every family reachable by Clone / ReplaceOrInsert / Delete /
+   DeleteMin / DeleteMax / Clear(true|false) / NewWithFreeList on the shared free list (c03_heap_history), an operation through one handle leaves every other handle, and the functional tree
    it stands for, unchanged *)
 Theorem c03_clone_isolation : forall deg, (2 <= deg)%nat -> forall w ts o ts' out w',
   winv deg w ts -> f_step deg ts o = Some (ts', out) -> (forall t', In t' ts' -> small_t t') ->
   w_step_h deg w o = Some (w', out) ->
-  forall j hj, j <> target o -> nth_error (whs w) j = Some hj ->
+  forall j hj, target o <> Some j -> nth_error (whs w) j = Some hj ->
     nth_error (whs w') j = Some hj /\ habs (hp (wst w')) hj = habs (hp (wst w)) hj.
 Proof. exact h_write_isolated. Qed.
 (* ownership: a node owned by the context of one handle occurs in (is reachable from) no other handle's tree; for a
@@ -295,7 +314,29 @@ Theorem c03_heap_demo_recycle :
   | None => False
   end.
 Proof. exact prog2_recycles. Qed.
-(* Not modelled at layer H: Clear / reset, the reads (they do not write the store), and the concurrent use of a tree and
+(* Clear: Clear(true) on the original right after Clone releases nothing and leaves the clone whole; Clear(true) on a
+   handle that owns nodes releases them until the (small) free list is full; other trees on the list take them *)
+Theorem c03_heap_demo_clear :
+  match h_run 2 (world_init 2) prog3a with
+  | Some (w1, _) =>
+      match h_run 2 w1 prog3b with
+      | Some (w2, _) =>
+          match h_run 2 w2 prog3c, f_run 2 [iempty] (prog3a ++ prog3b ++ prog3c) with
+          | Some (w3, _), Some (ts, _) =>
+              fl (wst w1) = [] /\
+              map (fun hd => option_map itree_list (habs (hp (wst w1)) hd)) (whs w1)
+                = [Some []; Some [(1,101); (2,102); (3,103); (4,104); (5,105); (6,106); (7,107); (8,108)]] /\
+              (length (fl (wst w2)) = 2 /\ nxt (wst w3) = nxt (wst w2) /\ fl (wst w3) = [])%nat /\
+              map (habs (hp (wst w3))) (whs w3) = map Some ts /\
+              map itree_list ts = [[(11,111)]; []; [(50,150); (51,151)]]
+          | _, _ => False
+          end
+      | None => False
+      end
+  | None => False
+  end.
+Proof. exact prog3_clear. Qed.
+(* Not modelled at layer H: the reads (they do not write the store), and the concurrent use of a tree and
    its clone from different goroutines (FreeList has its own mutex in btree.go; here the family is operated on one
    operation at a time). *)
 
@@ -386,6 +427,10 @@ Print Assumptions c03_footprint_nodup.
 Print Assumptions c03_heap_demo_clone_at_full_root.
 Print Assumptions c03_heap_demo_small.
 Print Assumptions c03_heap_demo_recycle.
+Print Assumptions c03_heap_clear.
+Print Assumptions c03_heap_reset_owned_only.
+Print Assumptions c03_heap_history_any_free_list.
+Print Assumptions c03_heap_demo_clear.
 Print Assumptions c03_case_sound.
 Print Assumptions c03_demo_history.
 Print Assumptions c03_demo_small.
